@@ -123,6 +123,11 @@ Proof.
   rewrite !smem_sadd, !smem_srem. cbn. reflexivity.
 Qed.
 
+Lemma touch_both_mP m : mP m -> mP {| m_key := m_key m; m_uid := m_uid m; m_cid := m_cid m; m_date := m_date m;
+                                       m_seqs := let q := srem "Recent" (m_seqs m) in
+                                                 if smem "unseen" q then sadd "Seen" (srem "unseen" q) else q |}.
+Proof. intros H. exact (touch_body_mP _ (touch_flags_mP m H)). Qed.
+
 (* ------------------------------------------------------------------ world level *)
 Lemma wP_set_box w n b : wP w -> bP b -> wP (set_box w n b).
 Proof.
@@ -251,7 +256,7 @@ Proof.
     split_pair (flush b3 s) b4 o3. cbn [fst]. apply wP_set_box; [exact Hw|].
     subst b4. apply flush_bP. subst b3. apply dispatch_bP.
     apply set_msgs_bP; [|apply upd_bP; exact H1]. apply map_at_Forall; [|apply H1].
-    intros m0 Hm0. destruct k; [apply touch_flags_mP|exact Hm0|apply touch_body_mP]; exact Hm0.
+    intros m0 Hm0. destruct k; [apply touch_flags_mP|exact Hm0|apply touch_body_mP|apply touch_both_mP]; exact Hm0.
   - (* OSearch *)
     apply in_mbox_wP; [exact Hw|]. intros n b E.
     destruct (gate b s uidc true) as [[b0 o0]|] eqn:G; [|exact Hw].
